@@ -31,6 +31,14 @@ def run(ctx):
         "prechecker: its shortcut is never taken by an en passant capture, and the exact test examines the king after the move (= C01/N2, N4 "
         "re-run) - these forms are not validated again afterwards",
     ]
+    ctx.decided.append("S7 every move the SAN readers construct without the checked constructor (the candidates of the searcher-fed forms) "
+                       "has its squares inside the hull of well-formed moves of its kind, for every text and valid position (abstract "
+                       "interpreter: the unsafe construction obligations of C19 on the SAN entry points)")
+    from .aisetup import total_roots_rule
+    total_roots_rule(ctx, facts, "S7", [("move_from_san", "Move::from_san"), ("make_san_move", "san::Move::make"),
+                                         ("make_san_str", "San(&str)::make")],
+                     "moves built by the SAN readers with the unchecked constructor are inside the well-formed hull of their kind",
+                     kinds=("unsafe", "model"))
     attackrules.prechecker_rule(ctx, facts, "S1p")
     attackrules.checker_rule(ctx, facts, "S1c")
     attackrules.pinned_rule(ctx, facts, "S1n")
